@@ -83,6 +83,7 @@ type Explorer struct {
 	Deadline   time.Time
 	AssertPrefixes []string
 	NoInitCache bool
+	SkipInitFuncs map[string]bool
 	SiteStats map[string]int
 	siteMu sync.Mutex
 
@@ -110,7 +111,7 @@ func NewExplorer(prog *ssa.Program, h *ssa.Function) *Explorer {
 		globalInit:    map[string]func(in *Interp, c *Cell){},
 		InitPkgPrefix: []string{"github.com/pegnet/pegnetd"},
 		witnessed:     map[string]int{}, violSeen: map[string]int{}, funcsSeen: map[string]bool{},
-		Params: map[string]int{}}
+		Params: map[string]int{}, SkipInitFuncs: map[string]bool{"github.com/pegnet/pegnetd/cmd": true}}
 	ex.cond = sync.NewCond(&ex.mu)
 	ex.sum.Ends = map[string]int{}
 	ex.sum.Covers = map[string]int{}
@@ -122,6 +123,7 @@ func NewExplorer(prog *ssa.Program, h *ssa.Function) *Explorer {
 	registerSnapshots(ex)
 	registerSigModel(ex)
 	registerGradingModel(ex)
+	registerRegexModel(ex)
 	return ex
 }
 
